@@ -19,7 +19,7 @@ import pandas as pd
 from .. import common, scenes, tablecheck
 
 REQ = ['ceilo', 'dt', 'height', 'type']
-DEFECTS = ['none', 'none', 'notframe', 'empty', 'drop_col', 'dup_row', 'dup_after_coercion', 'zero_nonzero_same',
+DEFECTS = ['none', 'none', 'notframe', 'empty', 'drop_col', 'col_into_index', 'col_into_index', 'dup_row', 'dup_after_coercion', 'zero_nonzero_same',
            'zero_nonzero_other', 'vv_nonvv_same', 'vv_nonvv_other', 'vv_zero_same', 'dtypes', 'extra_cols', 'col_order',
            'index_dup', 'dup_with_extra_col', 'dup_via_str_coercion', 'dup_with_extra_col', 'neg_height', 'type0_height', 'type1_nan', 'type2_alone', 'type3_alone',
            'glued_key_legal', 'glued_key_legal', 'same_special_twice_legal', 'same_special_twice_legal']
@@ -56,7 +56,7 @@ def build(seed, k):
         df = arg
         n = len(df)
         i = rng.randrange(n) if n else 0
-        if not set(REQ) <= set(df.columns) and d not in ('notframe', 'empty', 'extra_cols', 'col_order', 'index_dup'):
+        if not set(REQ) <= set(df.columns) and d not in ('notframe', 'empty', 'extra_cols', 'col_order', 'index_dup', 'col_into_index'):
             continue
         if d == 'notframe':
             arg = rng.choice([None, [1, 2], {'ceilo': ['a']}, np.zeros((2, 4)), 'frame', df.to_dict()])
@@ -64,6 +64,17 @@ def build(seed, k):
             arg = df.iloc[0:0]
         elif d == 'drop_col':
             arg = df.drop(columns=[rng.choice(REQ)])
+        elif d == 'col_into_index':
+            # a required column that is not a column: it sits in the index (set_index with the default drop=True), in one
+            # level of a MultiIndex, or only its *name* survives as the name of the index
+            cs = rng.sample(REQ, rng.choice([1, 1, 2]))
+            how = rng.choice(['set_index', 'set_index', 'rename_axis', 'multi_with_extra'])
+            if how == 'set_index':
+                arg = df.set_index(cs if len(cs) > 1 else cs[0])
+            elif how == 'rename_axis':
+                arg = df.drop(columns=cs[0]).rename_axis(cs[0])
+            else:
+                arg = df.assign(station='x').set_index(['station', cs[0]])
         elif d == 'dup_row' and n:
             arg = pd.concat([df, df.iloc[[i]]], ignore_index=rng.random() < 0.5)
         elif d == 'dup_after_coercion' and n:
